@@ -333,7 +333,15 @@ def member_model(name, cache):
 def unit_combined(st, tier):
     from moclo.registry.base import CombinedRegistry
     cache = {}
-    models = {m: member_model(m, cache) for m in MEMBERS}
+    try:
+        models = {m: member_model(m, cache) for m in MEMBERS}
+    except Exception as e:
+        # a member registry that cannot even be read through its own keys is incoherent (the filesystem / embedded
+        # sub-spaces report the details); combinations of incoherent members are not explored
+        st.violation("combined", "member-registry-cannot-be-read-through-its-own-keys", dict(family="combined", history=[]),
+                     "every yielded key can be looked up", "{}: {}".format(type(e).__name__, e))
+        st.goal("combined-closure-or-depth")
+        return
     depth = 4
     ops = [(op, m) for m in MEMBERS for op in ("<<", "add")]
 
@@ -404,6 +412,13 @@ def replay(scn, sub, st):
     else:
         from moclo.registry.base import CombinedRegistry
         cache = {}
+        if not scn.get("history"):
+            try:
+                for m in MEMBERS:
+                    member_model(m, cache)
+            except Exception as e:
+                st.violation("combined", "member-registry-cannot-be-read-through-its-own-keys", scn, "readable", str(e))
+            return
         c = CombinedRegistry()
         d = rm.DictRegistry()
         for op, m in scn["history"]:
